@@ -1,5 +1,7 @@
 package main
 
+import "sort"
+
 // C07: binary data bytes at every position of text seeds, inside and outside the limit; BOMs with
 // binary tails; the empty input.  C17: every limit for every seed.
 
@@ -165,6 +167,44 @@ func runC17(c *runCtx) {
 			}
 		}
 		seeds = allSeeds(c.rng, "/repo")
+	}
+	// foreign literals of any detector spliced in at later offsets: the verdict of a binary format must not
+	// depend on what follows its signature
+	_, lits, _ := parseMagic("/repo")
+	var pool [][]byte
+	for _, ls := range lits {
+		for _, l := range ls {
+			if len(l) >= 2 && len(l) <= 64 {
+				pool = append(pool, l)
+			}
+		}
+	}
+	sort.Slice(pool, func(i, j int) bool { return string(pool[i]) < string(pool[j]) })
+	ninj := 2
+	if c.tier == "thorough" {
+		ninj = 12
+	}
+	for _, s := range allSeeds(c.rng, "/repo") {
+		x := s.data
+		if len(x) < 4 || len(pool) == 0 {
+			continue
+		}
+		if len(x) > maxLen {
+			x = x[:maxLen]
+		}
+		for k := 0; k < ninj; k++ {
+			l := pool[c.rng.Intn(len(pool))]
+			off := 4 + c.rng.Intn(len(x))
+			y := append([]byte{}, x...)
+			for len(y) < off+len(l) {
+				y = append(y, 0)
+			}
+			copy(y[off:], l)
+			if len(y) > maxLen+80 {
+				y = y[:maxLen+80]
+			}
+			c.c17Case(s.kind+"+inject", y)
+		}
 	}
 	// ttf / access hand-over family
 	for _, tail := range []string{"Standard ACE DB", "Standard Jet DB", "Standard ", "Standard ACE D", "Standard Jet DBx", "Stand", ""} {
